@@ -469,7 +469,7 @@ namespace
       for(int j = 0; j < njobs; ++j)
       {
         rec.job = j;
-        int kind = int(sim::cfg_weighted(K(("job" + std::to_string(j)).c_str()), {4, 2, 2, 3, 3, 2, 2, 1, 1, 1, 1, 1, 2, 1, 2, 1}));
+        int kind = int(sim::cfg_weighted(K(("job" + std::to_string(j)).c_str()), {4, 2, 2, 3, 3, 2, 2, 1, 1, 1, 1, 1, 2, 1, 2, 1, 2}));
         bool fail_job = false;
         bool scat = true;
         long nsel = long(selected.size());
@@ -563,6 +563,28 @@ namespace
               REC = &ref_rec; Wrap<JobType> rw(rjob); ref.assemble_master(rw); REC = &rec;
             }
             compare("blocked operator matrix", m.template val<LAFEM::Perspective::pod>(), rm.template val<LAFEM::Perspective::pod>(), m.template used_elements<LAFEM::Perspective::pod>(), 1e-12);
+          }
+          break;
+        case 16: // Burgers defect vector: scatters into a blocked vector (the other vector jobs write scalar vectors)
+          {
+            constexpr int bd = Mesh_::world_dim;
+            typedef LAFEM::DenseVectorBlocked<double, Index, bd> BVector;
+            const auto& vtx = mesh.get_vertex_set();
+            BVector conv(mesh.get_num_entities(0)), sol(mesh.get_num_entities(0)), rhs(mesh.get_num_entities(0)), rrhs(mesh.get_num_entities(0));
+            for(Index v = 0; v < mesh.get_num_entities(0); ++v)
+            {
+              Tiny::Vector<double, bd> t, u;
+              for(int d = 0; d < bd; ++d) { t[d] = 0.5 + double(vtx[v][d]) * (d % 2 ? -1.0 : 1.0); u[d] = double((v * 7u + Index(d) * 3u) % 11u) / 8.0 - 0.5; }
+              conv(v, t); sol(v, u);
+            }
+            rhs.format(); rrhs.format();
+            typedef Assembly::BurgersBlockedVectorAssemblyJob<BVector, SpaceType, BVector> JobType;
+            JobType job(rhs, sol, conv, space, "auto-degree:3"), rjob(rrhs, sol, conv, space, "auto-degree:3");
+            for(JobType* jp : {&job, &rjob}) { jp->nu = 0.1; jp->theta = 0.5; jp->beta = 1.0; jp->frechet_beta = 0.0; jp->sd_delta = 0.0; jp->sd_nu = 0.1; }
+            Wrap<JobType> w(job);
+            da.assemble(w);
+            REC = &ref_rec; Wrap<JobType> rw(rjob); ref.assemble_master(rw); REC = &rec;
+            compare("Burgers defect vector (blocked)", rhs.template elements<LAFEM::Perspective::pod>(), rrhs.template elements<LAFEM::Perspective::pod>(), rhs.template size<LAFEM::Perspective::pod>(), 1e-12);
           }
           break;
         case 14: // Burgers operator with streamline diffusion into a BCSR matrix: the task keeps per-cell state (mean
